@@ -16,7 +16,7 @@ head = s[:s.index(marker)]
 body = s[s.index(marker):]
 import re
 body = re.sub(r'\(`mutants/cNN.json`, \d+ in total\)', f'(`mutants/cNN.json`, {nmut} in total)', body)
-body = re.sub(r'\(`seeded/<id>/`, \d+ in six rounds a-f\)', f'(`seeded/<id>/`, {n} in four rounds a-d)', body)
+body = re.sub(r'\(`seeded/<id>/`, \d+ in \w+ rounds a-\w\)', f'(`seeded/<id>/`, {n} in seven rounds a-g)', body)
 body = re.sub(r'without it\)\. \d+ of \d+ are caught', f'without it). {caught} of {n} are caught', body)
 body = re.sub(r'Outcome on the pinned tree: \d+ unguarded `fix:` commits in `/repo` \(\d+', f'Outcome on the pinned tree: {nfix} unguarded `fix:` commits in `/repo` ({fixed}', body)
 body = re.sub(r'\n\d+ known findings that need a design decision \([^)]*\)', '\n%d known findings that need a design decision (%s)' % (len(known), ", ".join(e["property"] + " " + e["signature"] for e in known)), body)
